@@ -62,7 +62,7 @@ func getTar(c *core.Ctx) *tarModel {
 }
 
 var ruleTar = &core.Rule{ID: "R18.1", Min: 8,
-	Doc: "tar: rejects below 512 bytes and works on raw[:512]; the recorded checksum is parsed from block[148:156] and the checksum routine blanks exactly indices [148,156) (tabulated over 0..511); both sums add every byte of the block (unsigned value / int8 value, tabulated over all byte values); acceptance is recorded == unsigned || recorded == signed; the octal parser rejects every non-octal byte; with the parser answering -1 every path rejects; no recorded value between 0 and 8*32+504*255 is rejected by its value alone",
+	Doc: "tar: rejects below 512 bytes and works on raw[:512]; the recorded checksum is parsed from block[148:156] and the checksum routine blanks exactly indices [148,156) (tabulated over 0..511); both sums add every byte of the block (unsigned value / int8 value, tabulated over all byte values); acceptance is recorded == unsigned || recorded == signed; the octal parser rejects every non-octal byte; with the parser answering -1 every path rejects; no recorded value between 0 and 8*32+504*255 is rejected by its value alone; every other rejection is classified by its controlling condition: length guard, parse result, or the one exclusion bytes.Contains(name field raw[:<=100], `/gpkg-1` + NUL) (needle folded); any other rejecting condition is undecided",
 	Run: func(c *core.Ctx, s *core.Sink) {
 		m := getTar(c)
 		f := m.det
